@@ -1,6 +1,11 @@
 import Driver.Common
 import Driver.C18
 import Driver.Life
+import Driver.C09
+import Driver.C08
+import Driver.Registry
+import Driver.C16
+import Driver.C20
 
 def main (args : List String) : IO UInt32 := do
   match args with
@@ -13,6 +18,11 @@ def main (args : List String) : IO UInt32 := do
       | "life-c03" => Driver.LifeDrv.run .c03 ops impl
       | "life-c04" => Driver.LifeDrv.run .c04 ops impl
       | "life-residue" => Driver.LifeDrv.run .residue ops impl
+      | "c09" => Driver.C09.run ops impl
+      | "c08" => Driver.C08.run ops impl
+      | "registry" => Driver.Registry.run ops impl
+      | "c16" => Driver.C16.run ops impl
+      | "c20" => Driver.C20.run ops impl
       | _ => do IO.eprintln s!"unknown model {model}"; return 2
     return (if t.diffs == 0 && t.oracleFails == 0 then 0 else 1)
   | _ =>
